@@ -560,8 +560,13 @@ def exec_rfcomm(case) -> Collector:
                 if li >= len(links) or not links[li].open or size < 1:
                     continue
                 link = links[li]
-                for _ in range(count):
-                    link.dlc[side].write(link.stream[side].take(size))
+                try:
+                    for _ in range(count):
+                        link.dlc[side].write(link.stream[side].take(size))
+                except Exception as e:  # noqa: BLE001
+                    col.fail(f'rfcomm/write_raises/{type(e).__name__}',
+                             f'DLC.write({size} bytes) on an open DLC raised {e!r} at {_site(e)}')
+                    return
             elif kind == 'run':
                 await asyncio.sleep(int(op[1]) / 1000.0)
             elif kind == 'sync':
@@ -1429,7 +1434,7 @@ def run(ctx) -> None:
     vloop.selftest()
     selftest()
     budget = ctx.pick(40_000, 250_000)
-    ctx.hyp('rfcomm', lambda c: run_rfcomm_case(ctx, c), rfcomm_cases(budget), max_examples=ctx.n(150, 8000))
+    ctx.hyp('rfcomm', lambda c: run_rfcomm_case(ctx, c), rfcomm_cases(budget), max_examples=ctx.n(320, 8000))
 
     # HFP: fixed feature-mask families (sharded), then sampled configurations with command programs
     fixed = list(pairwise_masks())
@@ -1454,7 +1459,7 @@ def run(ctx) -> None:
 
         ctx.hyp('hfp_fixed', fixed_case, hfp_cases(masks=st.just((0, 0)), with_commands=False),
                 max_examples=len(mine) * ctx.pick(1, 4))
-    ctx.hyp('hfp', lambda c: run_hfp_case(ctx, c), hfp_cases(), max_examples=ctx.n(150, 28000))
+    ctx.hyp('hfp', lambda c: run_hfp_case(ctx, c), hfp_cases(), max_examples=ctx.n(240, 28000))
 
     # every raw arity / form variant of every table name, in sessions of 6 lines, on fixed configurations
     lines = raw_enumeration()
